@@ -266,3 +266,49 @@ pub fn auto_trait_table() -> Vec<(&'static str, bool, bool, bool, bool)> {
         ("SendSync", AutoProbe::<C<dyn SendSync>>(P).is_send(), AutoProbe::<C<dyn SendSync>>(P).is_sync(), AutoProbe::<dyn SendSync>(P).is_send(), AutoProbe::<dyn SendSync>(P).is_sync()),
     ]
 }
+
+/// a method with more than 32 arguments, references among the late ones: the by-reference decision is one bit per
+/// argument of a 64 bit mask
+#[savefile_abi_exportable(version = 0)]
+pub trait ManyArgs {
+    #[allow(clippy::too_many_arguments)]
+    fn forty(
+        &self, a0: u32, a1: u32, a2: u32, a3: u32, a4: u32, a5: u32, a6: u32, a7: u32, a8: u32, a9: u32,
+        a10: u32, a11: u32, a12: u32, a13: u32, a14: u32, a15: u32, a16: u32, a17: u32, a18: u32, a19: u32,
+        a20: u32, a21: u32, a22: u32, a23: u32, a24: u32, a25: u32, a26: u32, a27: u32, a28: u32, a29: u32,
+        a30: &u32, a31: &u32, a32: &Rec, a33: &u64, a34: &str, a35: u8, a36: &Blob, a37: &u16, a38: u64, a39: &u32,
+    ) -> u64;
+}
+#[derive(Default)]
+pub struct ManyArgsImpl;
+impl ManyArgs for ManyArgsImpl {
+    fn forty(
+        &self, a0: u32, a1: u32, a2: u32, a3: u32, a4: u32, a5: u32, a6: u32, a7: u32, a8: u32, a9: u32,
+        a10: u32, a11: u32, a12: u32, a13: u32, a14: u32, a15: u32, a16: u32, a17: u32, a18: u32, a19: u32,
+        a20: u32, a21: u32, a22: u32, a23: u32, a24: u32, a25: u32, a26: u32, a27: u32, a28: u32, a29: u32,
+        a30: &u32, a31: &u32, a32: &Rec, a33: &u64, a34: &str, a35: u8, a36: &Blob, a37: &u16, a38: u64, a39: &u32,
+    ) -> u64 {
+        let by_value = [a0, a1, a2, a3, a4, a5, a6, a7, a8, a9, a10, a11, a12, a13, a14, a15, a16, a17, a18, a19, a20, a21, a22, a23, a24, a25, a26, a27, a28, a29];
+        let mut h: u64 = 1469598103934665603;
+        let mut mix = |x: u64| {
+            h ^= x;
+            h = h.wrapping_mul(1099511628211);
+        };
+        for (i, v) in by_value.iter().enumerate() {
+            mix((*v as u64) << (i % 7));
+        }
+        mix(*a30 as u64);
+        mix(*a31 as u64);
+        mix(a32.id as u64);
+        mix(a32.name.len() as u64);
+        mix(a32.vals.iter().map(|x| *x as u64).sum());
+        mix(*a33);
+        mix(a34.len() as u64);
+        mix(a35 as u64);
+        mix(a36.bytes.iter().map(|x| *x as u64).sum());
+        mix(*a37 as u64);
+        mix(a38);
+        mix(*a39 as u64);
+        h
+    }
+}
